@@ -19,6 +19,10 @@ func main() {
 		os.Exit(2)
 	}
 	prop := os.Args[1]
+	if prop == "C20TRACE" && len(os.Args) >= 3 { // child process: the simulation on a recorded database
+		c20TraceChild(os.Args[2])
+		return
+	}
 	if prop == "C20SIM" && len(os.Args) >= 4 { // child process of the C20 simulation stream
 		c20SimChild(os.Args[2], os.Args[3])
 		return
